@@ -504,6 +504,8 @@ class Engine:
         self.contexts = 0
         self.watch_external = set(watch_external)
         self.stack = []
+        self.observing = True
+        self.observed_ctx = set()
 
     def cfg(self, fn):
         c = self.cfgs.get(fn.key)
@@ -817,7 +819,8 @@ class Engine:
 
     # ---------------------------------------------------------------- per function
     def _observe(self, fn, nid, facts):
-        self.site.setdefault((fn.key, nid), []).append(frozenset(facts))
+        if self.observing:
+            self.site.setdefault((fn.key, nid), []).append(frozenset(facts))
 
     def analyze(self, fn, entry=frozenset(), depth=0):
         """Returns the must-facts at normal exit (None if the function never returns normally)."""
@@ -825,8 +828,10 @@ class Engine:
             return frozenset()
         entry = frozenset(entry)
         key = (fn.key, entry)
-        if key in self.memo:
+        if key in self.memo and (not self.observing or key in self.observed_ctx):
             return self.memo[key]
+        want_observe = self.observing
+        self.observing = False          # fix-point iteration: transient states are not observations
         self.contexts += 1
         self.stack.append(fn.key)
         g = self.cfg(fn)
@@ -851,7 +856,7 @@ class Engine:
                                                         [edge_out[(p, b)] for p in ps if p not in loops[b]])
                     if inv:
                         new_in |= inv
-                if b in IN and IN[b] == new_in and b in OUT:
+                if b in IN and IN[b] == new_in and b in OUT and b not in loops:
                     continue
                 IN[b] = new_in
             cur = set(IN[b])
@@ -893,10 +898,19 @@ class Engine:
             if p in g.reach and (p, g.exit) in edge_out and p not in g.throws:
                 s = edge_out[(p, g.exit)]
                 ex = set(s) if ex is None else (ex & s)
-        for b, s in IN.items():
-            self.block_in.setdefault((fn.key, b), []).append(frozenset(s))
         res = frozenset(ex) if ex is not None else None
         self.memo[key] = res
+        self.observing = want_observe
+        if want_observe:
+            # one more pass over the converged block-entry states, this time recording what holds at each site
+            self.observed_ctx.add(key)
+            for b in g.order:
+                if b not in IN:
+                    continue
+                cur = set(IN[b])
+                self.block_in.setdefault((fn.key, b), []).append(frozenset(cur))
+                for e in g.blocks[b]["elems"]:
+                    cur = self.transfer_elem(fn, e, cur, depth)
         self.stack.pop()
         return res
 
